@@ -347,4 +347,346 @@ theorem C05_unlock_right (cfg : Cfg) (hf2 : cfg.f2 = true) (hf2b : cfg.f2b = tru
   · have hl' : m.locked = false := by simpa using hl
     simp [hw, hl', hinv hl']
 
+/-! ### the bookkeeping invariant `PassOK` holds after every history -/
+
+/-- passphrase arguments of the op are not the EMPTY passphrase -/
+def Op.noEmpty : Op → Bool
+  | .unlock p => p != EMPTY
+  | .changePass _ n true => n != EMPTY
+  | _ => true
+
+theorem scal_unlockDou (cfg : Cfg) (d : Disk) (sc : Nat) (es : List Dou) (m : Mem) :
+    Scal (unlockDou cfg d sc es m).1 = Scal m := by
+  induction es generalizing m with
+  | nil => rfl
+  | cons e es ih =>
+    simp only [unlockDou]
+    split
+    · rfl
+    · rename_i m1 hl
+      have h1 := scal_loadAcct hl
+      split
+      · split
+        · rw [ih]; exact h1
+        · exact h1
+      · rw [ih]; exact h1
+
+theorem scal_unlockScopes (cfg : Cfg) (d : Disk) (scs : List Nat) (m : Mem) :
+    Scal (unlockScopes cfg d scs m).1 = Scal m := by
+  induction scs generalizing m with
+  | nil => rfl
+  | cons sc rest ih =>
+    simp only [unlockScopes]
+    split
+    · rfl
+    · rename_i ai _
+      have h1 := scal_unlockDou cfg d sc ((m.updScope sc fun s => { s with acctInfo := ai }).scopes sc).dou
+        (m.updScope sc fun s => { s with acctInfo := ai })
+      split
+      · rename_i m2 e heq; rw [heq] at h1; exact h1
+      · rename_i m2 heq; rw [heq] at h1; rw [ih]; exact h1
+
+theorem scal_unlockScopes_gen (cfg : Cfg) (d : Disk) (scs : List Nat) (m : Mem) :
+    (unlockScopes cfg d scs m).1.locked = m.locked ∧ (unlockScopes cfg d scs m).1.privPass = m.privPass ∧
+    (unlockScopes cfg d scs m).1.saltZero = m.saltZero := by
+  have h := scal_unlockScopes cfg d scs m
+  exact ⟨congrArg (·.1) h, congrArg (·.2.2.2.2.2.2.1) h, congrArg (·.2.2.2.2.2.2.2.2) h⟩
+
+theorem passOK_unlock (cfg : Cfg) (d : Disk) (m : Mem) (p : Nat) (h : PassOK m)
+    (hc : cfg.f12 = true ∨ p ≠ EMPTY) : PassOK (unlock cfg d m p).1 := by
+  have hsalt : ∀ x : Mem, saltAfter cfg x p = x.saltZero := by
+    intro x; unfold saltAfter
+    rcases hc with hc | hc <;> simp [hc]
+  unfold unlock
+  split
+  · exact h
+  · split
+    · rename_i hl
+      have hl' : m.locked = false := by simpa using hl
+      dsimp only
+      split
+      · rename_i hh
+        intro _
+        simp only [hsalt]
+        have := h hl'
+        rw [this] at hh ⊢
+      · intro hlk; simp [lockMem] at hlk
+    · rename_i hnl
+      have hlocked : m.locked = true := by simpa using hnl
+      split
+      · intro hlk; simp [lockMem] at hlk
+      · rename_i hp
+        have hp' : p = m.privPass := by simpa using hp
+        dsimp only
+        have key := scal_unlockScopes_gen cfg d (List.range nScopes) { m with masterPriv := .nonzero, cryptoPriv := .nonzero }
+        split
+        · rename_i m2 heq
+          rw [heq] at key; simp only at key
+          intro hlk; rw [key.1, hlocked] at hlk; cases hlk
+        · intro hlk; simp [lockMem] at hlk
+        · rename_i m2 heq
+          rw [heq] at key; simp only at key
+          intro _
+          show some (p, m2.saltZero) = some (m2.privPass, saltAfter cfg m2 p)
+          rw [hsalt, key.2.1, hp']
+
+theorem passOK_locked {m : Mem} (h : m.locked = true) : PassOK m := by
+  intro h'; rw [h] at h'; cases h'
+
+theorem passOK_lockMem (cfg : Cfg) (m : Mem) : PassOK (lockMem cfg m) := passOK_locked rfl
+
+theorem passOK_changePass (cfg : Cfg) (d : Disk) (m : Mem) (o n : Nat) (pr : Bool) (h : PassOK m)
+    (hc : cfg.f12 = true ∨ (pr = true → n ≠ EMPTY)) : PassOK (changePass cfg d m o n pr).2.1 := by
+  unfold changePass
+  split
+  · exact h
+  · split
+    · rename_i hpr
+      split
+      · exact h
+      · intro hl
+        simp only at hl ⊢
+        have : (!cfg.f12 && decide (n = EMPTY)) = false := by
+          rcases hc with hc | hc
+          · simp [hc]
+          · simp [hc hpr]
+        simp [hl, this]
+    · split
+      · exact h
+      · exact passOK_of_scal rfl h
+
+theorem passOK_convertWO (cfg : Cfg) (d : Disk) (m : Mem) (h : PassOK m) : PassOK (convertWO cfg d m).2 := by
+  unfold convertWO
+  split
+  · exact h
+  · apply passOK_locked
+    dsimp only
+    by_cases hl : m.locked = true
+    · simp [hl]
+    · simp [hl, lockMem]
+
+theorem passOK_exec (s : State) (m : Mem) (hs : s.mem = some m) (op : Op) (h : PassOK m)
+    (hc : s.cfg.f12 = true ∨ op.noEmpty = true) (m' : Mem) (hm : (exec s m op).1.mem = some m') : PassOK m' := by
+  by_cases hp : op.plain = true
+  · exact passOK_of_scal (scal_exec s m hs op hp m' hm) h
+  · cases op <;> simp only [Op.plain] at hp <;> simp only [exec] at hm
+    all_goals try (exact absurd trivial hp)
+    case create => rw [hs] at hm; cases hm; exact h
+    case reopen => rw [hs] at hm; cases hm; exact h
+    case begin => rw [hs] at hm; cases hm; exact h
+    case commit => rw [hs] at hm; cases hm; exact h
+    case rollback => rw [hs] at hm; cases hm; exact h
+    case unlock p =>
+      cases hm
+      exact passOK_unlock _ _ _ _ h (by
+        rcases hc with hc | hc
+        · exact Or.inl hc
+        · right; simpa [Op.noEmpty] using hc)
+    case lock =>
+      cases hm
+      unfold lockOp; split
+      · exact h
+      · split
+        · exact h
+        · exact passOK_lockMem _ _
+    case changePass o n pr =>
+      cases hm
+      exact passOK_changePass _ _ _ _ _ _ h (by
+        rcases hc with hc | hc
+        · exact Or.inl hc
+        · right; intro hpr; subst hpr; simpa [Op.noEmpty] using hc)
+    case convertWO => cases hm; exact passOK_convertWO _ _ _ h
+
+/-- the passphrase bookkeeping invariant at the level of states -/
+def StPassOK (s : State) : Prop := ∀ m, s.mem = some m → PassOK m
+
+theorem exec_cfg (s : State) (m : Mem) (op : Op) : (exec s m op).1.cfg = s.cfg := by
+  cases op <;> simp only [exec] <;> (repeat' split) <;> rfl
+
+theorem step_cfg (s : State) (op : Op) : (step s op).1.cfg = s.cfg := by
+  unfold step
+  cases op <;> simp only [] <;> (repeat' split) <;> first | rfl | (simp only [rollbackTx, commitTx, exec_cfg])
+
+theorem passOK_commitTx (s : State) (h : StPassOK s) : StPassOK (commitTx s) := by
+  intro m hm
+  simp only [commitTx] at hm
+  cases hs : s.mem with
+  | none => rw [hs] at hm; cases hm
+  | some m0 =>
+    rw [hs] at hm; simp only [Option.map] at hm; cases hm
+    exact passOK_of_scal (scal_foldl_runPend _ _) (h m0 hs)
+
+theorem passOK_step (s : State) (op : Op) (h : StPassOK s) (hc : s.cfg.f12 = true ∨ op.noEmpty = true) :
+    StPassOK (step s op).1 := by
+  have generic : ∀ m, s.mem = some m →
+      StPassOK (if s.snap.isSome || !op.writes then exec s m op
+        else
+          let r := exec { s with snap := some s.disk, pend := [] } m op
+          if isErr r.2 then (rollbackTx r.1, r.2) else (commitTx r.1, r.2)).1 := by
+    intro m hs
+    split
+    · intro m' hm'; exact passOK_exec s m hs op (h m hs) hc m' hm'
+    · dsimp only
+      have hex : StPassOK (exec { s with snap := some s.disk, pend := [] } m op).1 := by
+        intro m' hm'
+        exact passOK_exec { s with snap := some s.disk, pend := [] } m hs op (h m hs) hc m' hm'
+      split
+      · intro m' hm'; exact hex m' (by simpa [rollbackTx] using hm')
+      · exact passOK_commitTx _ hex
+  unfold step
+  cases op
+  case create =>
+    simp only []; split
+    · exact h
+    · split
+      · exact h
+      · intro m hm; simp only at hm; cases hm; exact passOK_locked rfl
+  case reopen =>
+    simp only []; split
+    · exact h
+    · split
+      · exact h
+      · split
+        · intro m hm; cases hm
+        · intro m hm; simp only at hm; cases hm; exact passOK_locked rfl
+  case begin => simp only []; split <;> exact h
+  case commit => simp only []; split; exact h; exact passOK_commitTx _ h
+  case rollback => simp only []; split; exact h; exact h
+  all_goals
+    simp only []
+    split
+    · exact h
+    · rename_i m hs; exact generic m hs
+
+theorem run_cfg (s : State) (ops : List Op) : (run s ops).cfg = s.cfg := by
+  induction ops generalizing s with
+  | nil => rfl
+  | cons op ops ih => simp only [run]; rw [ih, step_cfg]
+
+theorem passOK_run (s : State) (ops : List Op) (h : StPassOK s)
+    (hc : s.cfg.f12 = true ∨ ∀ op ∈ ops, op.noEmpty = true) : StPassOK (run s ops) := by
+  induction ops generalizing s with
+  | nil => exact h
+  | cons op ops ih =>
+    simp only [run]
+    apply ih
+    · exact passOK_step s op h (by
+        rcases hc with hc | hc
+        · exact Or.inl hc
+        · exact Or.inr (hc op List.mem_cons_self))
+    · rw [step_cfg]
+      rcases hc with hc | hc
+      · exact Or.inl hc
+      · exact Or.inr (fun o ho => hc o (List.mem_cons_of_mem _ ho))
+
+/-- `PassOK` in every state reachable from the empty state, for every history — on a tree with the salt fix (f12),
+or (current tree) for histories that never use the EMPTY private passphrase. -/
+theorem C05_passOK_invariant (cfg : Cfg) (ops : List Op)
+    (hc : cfg.f12 = true ∨ ∀ op ∈ ops, op.noEmpty = true) : StPassOK (run { cfg := cfg } ops) :=
+  passOK_run { cfg := cfg } ops (fun m hm => by cases hm) hc
+
+/-- after EVERY history: any passphrase other than the current one fails with ErrWrongPassphrase and leaves the
+manager locked (whether it was locked or unlocked before).  `_partial`: on the current tree (no f12) the histories
+must not use the EMPTY private passphrase (see `C05_counterexample_F12` for what goes wrong otherwise — for the
+*right* passphrase; the wrong-passphrase clause itself is not known to fail). -/
+theorem C05_unlock_wrong_histories_partial (cfg : Cfg) (ops : List Op)
+    (hc : cfg.f12 = true ∨ ∀ op ∈ ops, op.noEmpty = true) (m : Mem)
+    (hm : (run { cfg := cfg } ops).mem = some m) (hw : m.watchOnly = false) (p : Nat) (hp : p ≠ m.privPass) (d : Disk) :
+    (unlock cfg d m p).2 = some .wrongPassphrase ∧ (unlock cfg d m p).1.locked = true :=
+  C05_unlock_wrong cfg d m p hw (C05_passOK_invariant cfg ops hc m hm) hp
+
+/-- after every history (same restriction), on the fixed tree (f2, f2b): the current passphrase unlocks.
+`_partial`: `DouOK` (every queued derive-on-unlock address belongs to a cached account) is a hypothesis here; it
+is a structural invariant of the model (entries are only appended right after their account was cached, the
+account cache never shrinks) that is exercised by the differential run but not yet proved over histories. -/
+theorem C05_unlock_right_histories_partial (cfg : Cfg) (hf2 : cfg.f2 = true) (hf2b : cfg.f2b = true) (ops : List Op)
+    (hc : cfg.f12 = true ∨ ∀ op ∈ ops, op.noEmpty = true) (m : Mem)
+    (hm : (run { cfg := cfg } ops).mem = some m) (hw : m.watchOnly = false) (hd : DouOK m) (d : Disk) :
+    (unlock cfg d m m.privPass).2 = none ∧ (unlock cfg d m m.privPass).1.locked = false :=
+  C05_unlock_right cfg hf2 hf2b d m hw (C05_passOK_invariant cfg ops hc m hm) hd
+
+/-- non-vacuity: a concrete history with accounts, a watch-only account, addresses issued while locked, and a
+passphrase change reaches a state where the hypotheses hold and Unlock(current) succeeds. -/
+example :
+    let s := run { cfg := Cfg.repo }
+      [.create 5 1, .unlock 1, .newAccount 1 "a" false, .newAccount 1 "x" true, .lock, .q (.props 1 2),
+       .next 1 2 2 false, .next 1 0 1 true, .changePass 1 2 true]
+    (s.mem.map fun m => ((unlock s.cfg s.disk m 2).2, (unlock s.cfg s.disk m 1).2)) =
+      some (none, some .wrongPassphrase) := by
+  decide
+
+/-! ## 4. `C05_change`: after a private passphrase change the new one works and the old one fails, immediately and
+after a restart -/
+
+theorem C05_change (cfg : Cfg) (hf2 : cfg.f2 = true) (hf2b : cfg.f2b = true) (d : Disk) (m : Mem) (old new : Nat)
+    (hw : m.watchOnly = false) (hdw : d.watchOnly = false) (hinv : PassOK m) (hd : DouOK m) (hne : old ≠ new)
+    (hc : cfg.f12 = true ∨ new ≠ EMPTY)
+    (hok : (changePass cfg d m old new true).2.2 = none) :
+    let d' := (changePass cfg d m old new true).1
+    let m' := (changePass cfg d m old new true).2.1
+    -- immediately, on the running manager
+    ((unlock cfg d' m' new).2 = none ∧ (unlock cfg d' m' new).1.locked = false) ∧
+    ((unlock cfg d' m' old).2 = some .wrongPassphrase ∧ (unlock cfg d' m' old).1.locked = true) ∧
+    -- after a restart (a manager freshly opened on the changed database)
+    ((unlock cfg d' (openMem d') new).2 = none ∧ (unlock cfg d' (openMem d') new).1.locked = false) ∧
+    ((unlock cfg d' (openMem d') old).2 = some .wrongPassphrase ∧ (unlock cfg d' (openMem d') old).1.locked = true) := by
+  have hold : old = m.privPass := by
+    unfold changePass at hok
+    simp only [hw, Bool.and_false, Bool.false_eq_true, if_false, if_true] at hok
+    by_cases h : old = m.privPass
+    · exact h
+    · simp [h] at hok
+  have hcp : changePass cfg d m old new true =
+      ({ d with privPass := new },
+       { m with privPass := new, masterPriv := if m.locked then .zero else .nonzero,
+                hashed := if m.locked then none else some (new, false),
+                saltZero := if m.locked then false else (!cfg.f12 && new = EMPTY) }, none) := by
+    unfold changePass; simp [hw, hold]
+  have hpok := passOK_changePass cfg d m old new true hinv (by
+    rcases hc with hc | hc
+    · exact Or.inl hc
+    · exact Or.inr (fun _ => hc))
+  rw [hcp] at hpok ⊢
+  dsimp only at hpok ⊢
+  refine ⟨?_, ?_, ?_, ?_⟩
+  · exact C05_unlock_right cfg hf2 hf2b _ _ hw hpok hd
+  · exact C05_unlock_wrong cfg _ _ old hw hpok hne
+  · exact C05_unlock_right cfg hf2 hf2b _ (openMem { d with privPass := new }) (by simp [openMem, hdw])
+      (passOK_locked rfl) (fun sc e he => by simp [openMem] at he)
+  · exact C05_unlock_wrong cfg _ (openMem { d with privPass := new }) old (by simp [openMem, hdw])
+      (passOK_locked rfl) (by simpa [openMem] using hne)
+
+/-! ## 5. counter-examples on trees without the fixes -/
+
+/-- F2 (original snapshot): Unlock(correct passphrase) fails with a crypto error and leaves the manager locked
+once a watch-only (imported xpub) account is in the account cache. -/
+theorem C05_counterexample_F2 :
+    let s := run { cfg := { Cfg.fixed with f2 := false, f2b := false } }
+      [.create 5 1, .newAccount 1 "xp" true, .q (.props 1 1)]
+    (step s (.unlock 1)).2 = .err .crypto ∧ lockedOf (step s (.unlock 1)).1 = some true := by
+  decide
+
+/-- F2b (tree with 37f56ec only): the same history makes Unlock(correct passphrase) panic in the derive-on-unlock
+loop (nil private key of a watch-only account's address). -/
+theorem C05_counterexample_F2b :
+    let s := run { cfg := { Cfg.fixed with f2b := false } }
+      [.create 5 1, .newAccount 1 "xp" true, .q (.props 1 1)]
+    (step s (.unlock 1)).2 = .err .panic := by
+  decide
+
+/-- F12 (open on the current tree): with an EMPTY private passphrase (accepted by ChangePassphrase) the first
+Unlock(current passphrase) of an unlocked manager fails and locks it (the salt was wiped through the aliasing
+`append(salt[:], passphrase...)`). -/
+theorem C05_counterexample_F12 :
+    let s := run { cfg := Cfg.repo } [.create 5 1, .unlock 1, .changePass 1 EMPTY true]
+    lockedOf s = some false ∧ (step s (.unlock EMPTY)).2 = .err .wrongPassphrase ∧
+    lockedOf (step s (.unlock EMPTY)).1 = some true := by
+  decide
+
+/-- … and with the salt fix (f12) the same history is fine. -/
+example :
+    let s := run { cfg := Cfg.fixed } [.create 5 1, .unlock 1, .changePass 1 EMPTY true]
+    (step s (.unlock EMPTY)).2 = .ok := by
+  decide
+
 end AddrLock
